@@ -26,7 +26,7 @@ import time
 import vlib
 from c11 import Patched, coq_bytes, ref_fwd, ref_bwd
 
-PROPS = ['Props/C04.v']
+PROPS = ['Props/C04.v', 'Props/TsMatcher.v']
 LF = 10
 TS_PATTERN = (r'^(?P<year>\d{4})-(?P<month>\d{2})-(?P<day>\d{2}) '
               r'(?P<hours>\d{2}):(?P<minutes>\d{2}):(?P<seconds>\d{2})')
